@@ -43,6 +43,15 @@ type History struct {
 	TimeoutNs   int64  `json:"timeout_ns"`
 	Base        uint32 `json:"base"` // window anchor used for linear offsets
 	Ops         []Op   `json:"ops"`
+	// Reenter: operations performed from INSIDE a Stream callback (the At-th callback of the whole
+	// history, counting both kinds). Only used with the C01 oracle, with fresh sequence numbers.
+	Reenter []ReOp `json:"reenter,omitempty"`
+}
+
+// ReOp is one re-entrant call.
+type ReOp struct {
+	At int `json:"at_callback"`
+	Op Op  `json:"op"`
 }
 
 func (h *History) String() string {
@@ -58,6 +67,13 @@ func (h *History) String() string {
 			sb.WriteString(" " + o.Kind)
 		}
 	}
+	for _, ro := range h.Reenter {
+		if ro.Op.Kind == OpPushMsg {
+			fmt.Fprintf(&sb, " [in callback #%d: push(%d,t%d)]", ro.At, ro.Op.Seq, ro.Op.Type)
+		} else {
+			fmt.Fprintf(&sb, " [in callback #%d: %s]", ro.At, ro.Op.Kind)
+		}
+	}
 	return sb.String()
 }
 
@@ -68,6 +84,9 @@ type CB struct {
 	Seqs  []uint32 // Sequence field of each delivered message
 	Types []uint16
 	Nil   int // number of nil entries in the slice
+	// Nested marks the begin (1) / end (2) of a re-entrant call made from inside the previous callback; NOp indexes History.Reenter.
+	Nested int
+	NOp    int
 }
 
 // Step is what was observed for one op.
@@ -88,8 +107,36 @@ type Trace struct {
 }
 
 type recorder struct {
-	t   *Trace
-	cur *Step
+	t     *Trace
+	cur   *Step
+	r     *libaudit.Reassembler
+	ncb   int
+	fired []bool
+}
+
+// reenter performs the re-entrant calls scheduled for the callback that was just recorded.
+func (r *recorder) reenter() {
+	n := r.ncb
+	r.ncb++
+	h := r.t.H
+	for j := range h.Reenter {
+		if h.Reenter[j].At != n || r.fired[j] {
+			continue
+		}
+		r.fired[j] = true
+		r.cur.CBs = append(r.cur.CBs, CB{Lost: -2, Nested: 1, NOp: j})
+		op := h.Reenter[j].Op
+		switch op.Kind {
+		case OpPushMsg:
+			id := len(h.Ops) + j
+			m := &auparse.AuditMessage{RecordType: auparse.AuditMessageType(op.Type), Sequence: op.Seq, Timestamp: time.Unix(1700000000, 0), RawData: RawBody(op.Seq, id), Payload: id}
+			r.t.pushedPtr[m] = id
+			r.r.PushMessage(m)
+		case OpMaintain:
+			r.r.Maintain()
+		}
+		r.cur.CBs = append(r.cur.CBs, CB{Lost: -2, Nested: 2, NOp: j})
+	}
 }
 
 func (r *recorder) ReassemblyComplete(msgs []*auparse.AuditMessage) {
@@ -118,10 +165,12 @@ func (r *recorder) ReassemblyComplete(msgs []*auparse.AuditMessage) {
 		cb.Types = append(cb.Types, uint16(m.RecordType))
 	}
 	r.cur.CBs = append(r.cur.CBs, cb)
+	r.reenter()
 }
 
 func (r *recorder) EventsLost(count int) {
 	r.cur.CBs = append(r.cur.CBs, CB{Lost: count})
+	r.reenter()
 }
 
 // ExecOpts selects optional observations.
@@ -142,7 +191,7 @@ func RawBody(seq uint32, k int) string {
 // Execute runs the history against a fresh Reassembler.
 func Execute(h *History, o ExecOpts) (tr *Trace) {
 	tr = &Trace{H: h, Steps: make([]Step, len(h.Ops)), pushedPtr: map[*auparse.AuditMessage]int{}}
-	rec := &recorder{t: tr}
+	rec := &recorder{t: tr, fired: make([]bool, len(h.Reenter))}
 	defer func() {
 		if p := recover(); p != nil {
 			tr.Panic = fmt.Sprint(p)
@@ -153,6 +202,7 @@ func Execute(h *History, o ExecOpts) (tr *Trace) {
 		tr.NewErr = true
 		return tr
 	}
+	rec.r = r
 	for k := range h.Ops {
 		op := &h.Ops[k]
 		st := &tr.Steps[k]
